@@ -257,6 +257,13 @@ pub fn run(run: &mut Run) -> PResult {
     run.rule = "52 cards + blank for the per-card clause; every five-card subset under all 24 relabellings of the four suits (applied by the model) and 1..3 applications of the crate's container shift, every six-card subset and (quick: 1-in-8 stratum / thorough: every) seven-card subset, ascending and descending, under the three non-trivial shifts, values also compared with the model ordinal; proptest hands of 2..7 slots over cards, blank and arbitrary words for the slot-wise clause. Non-trivial = relabelled hands (all) / hands of the slot-wise clause containing a blank, a repeat or a non-card word; distinct = distinct subsets / word arrays".into();
     run.assume("for non-card words the container shift is compared with the crate's own per-word shift (the statement defines shifting only for cards and blank)");
     super::regress::replay_dir(run, "C08", check_case)?;
+    {
+        let items: Vec<u32> = card::DECK.iter().copied().chain([0u32]).collect();
+        disturbance_pass(run, &items, &|w| card_clauses(*w), &|w| ("C08.card".into(), json!({"word": engine::hex(*w)}), card::render(*w)))?;
+        let t = poker::tables();
+        let hands: Vec<Vec<u32>> = (1..=7462usize).step_by(7).map(|o| t.rep[o].iter().map(|c| card::BY_CI[*c as usize]).collect()).collect();
+        disturbance_pass(run, &hands, &|ws| invariance(ws, Some([1, 2, 3, 0])).and_then(|_| slotwise(ws)), &|ws| ("C08.invariance".into(), hand_json(ws), card::render_hand(ws)))?;
+    }
     let mut n = 0;
     for w in card::DECK.iter().chain([0u32].iter()) {
         n += 1;
@@ -306,6 +313,9 @@ pub fn run(run: &mut Run) -> PResult {
 }
 
 pub fn check_case(clause: &str, case: &Value) -> Result<(), String> {
+    if clause.ends_with(".after_disturbance") {
+        return replay_after_disturbance(case, check_case);
+    }
     match clause {
         "C08.card" => card_clauses(engine::parse_word(&case["word"])?),
         "C08.sequence" => {
